@@ -43,7 +43,7 @@ mkprops.emit('/verif/coq/Props/C03.v',
      ('C03_directory_decode_spec', 'FatDir.ProofsSpec.decode_agrees_with_spec', 'the directory decoder of the code (_group_entries / _split_entries / _join_lfn_entries) = the specification decoder on every directory region whose long-name runs are valid or absent: same names, aliases, raw entries, offsets, no orphans'),
     ], tail=SRC03)
 
-H_ALLOC = '''From Coq Require Import List NArith ZArith Bool.
+H_ALLOC = '''From Coq Require Import List NArith ZArith Bool String.
 From NV Require Import Lib.Res Gen.Fat Fat.Spec.
 From NV Require Import FatTable.Model FatTable.ProofsBase FatTable.ProofsSet32 FatTable.Proofs.
 From NV Require Import FatAlloc.Model FatAlloc.ProofsBase FatAlloc.ProofsGrow FatAlloc.ProofsOps FatAlloc.ProofsWrite FatAlloc.ProofsFrame FatAlloc.Proofs.
@@ -87,6 +87,26 @@ Theorem C04_source_facts :
   (fat32_min_valid, fat32_max_valid, fat32_end_mark) = (2, 268435439, 268435455).
 Proof. repeat split; reflexivity. Qed.
 Print Assumptions C04_source_facts.
+
+(* the path operations that FatVol/Model.v follows by hand (resolution, the creating branch of open, the five mutators):
+   canonical digests regenerated from path.py on every run -- any edit of their logic breaks this obligation (fail closed;
+   the correspondence then looks for a concrete input) *)
+Theorem C04_path_source_facts :
+  canon_FatPath_priv_resolve = "7c8f179242b07197"%string /\\
+  canon_FatPath_priv_from_entry = "8db45540687235cb"%string /\\
+  canon_FatPath_priv_refresh = "437ddfd4dccd5bcb"%string /\\
+  canon_FatPath_open = "3a9fbde66da2925d"%string /\\
+  canon_FatPath_unlink = "a4ee3c1b9f81d153"%string /\\
+  canon_FatPath_rename = "2f61c57c08072ff0"%string /\\
+  canon_FatPath_mkdir = "8b0eaad0a71795d8"%string /\\
+  canon_FatPath_rmdir = "cd50a252695244d6"%string /\\
+  canon_FatPath_touch = "1c2f44c844ebe6d8"%string /\\
+  canon_FatPath_priv_must_be_named = "59d9a08179330008"%string /\\
+  canon_FatPath_resolve = "596befdb77446bbc"%string /\\
+  canon_get_parts = "fac8ba5c77581023"%string /\\
+  fatpath_mutators_refuse_dot_names = true.
+Proof. repeat split; reflexivity. Qed.
+Print Assumptions C04_path_source_facts.
 ''')
 
 mkprops.emit('/verif/coq/Props/C10.v',
